@@ -31,7 +31,7 @@ func init() {
 		Shards:   shards(8, 16),
 		Timeout:  timeouts(12*time.Minute, 90*time.Minute),
 		MinEvals: 500,
-		Required: []string{"midstream_setmsize", "class:valid", "class:exact", "class:oversize", "class:truncated", "class:prefix<4", "class:prefix4-6", "class:badtype", "class:tailcut", "class:tailcut-oversize", "class:hostile", "after_abnormal_delivered", "residue_probes"},
+		Required: []string{"midstream_setmsize", "class:valid", "class:exact", "class:oversize", "class:truncated", "class:prefix<4", "class:prefix4-6", "class:badtype", "class:tailcut", "class:tailcut-oversize", "class:tread-boundary", "two_channel_interleavings", "class:hostile", "after_abnormal_delivered", "residue_probes"},
 		Run:      runC03,
 	})
 }
@@ -141,6 +141,15 @@ func genFrameC03(w *mon.W, g *gen.G, M int, last bool) c03frame {
 	r := w.Rng
 	switch c := r.Intn(20); {
 	case c < 7: // valid, fits
+		if r.Intn(8) == 0 && M >= 23 {
+			// a Tread whose count lies around what a reply can carry at this msize
+			cnt := uint32(M - 14 + r.Intn(18))
+			if r.Intn(6) == 0 {
+				cnt = ^uint32(0) - uint32(r.Intn(12))
+			}
+			fc := &p9p.Fcall{Type: p9p.Tread, Tag: g.Tag(), Message: p9p.MessageTread{Fid: p9p.Fid(g.U32()), Offset: g.U64(), Count: cnt}}
+			return c03frame{class: "tread-boundary", bytes: refcodec.MustFrame(fc), expect: "msg", msg: clampTread(fc, M)}
+		}
 		fc, fr := fitting(g, 7, M)
 		return c03frame{class: "valid", bytes: fr, expect: "msg", msg: clampTread(fc, M)}
 	case c < 8: // exactly msize
@@ -288,9 +297,65 @@ func newChanC03(r interface{ Intn(int) int }, conn *wire.Script, M int) (p9p.Cha
 	return p9p.NewChannel(conn, M), "direct"
 }
 
+// twoChannelsC03: the outcome of a read on one channel depends only on that channel's bytes,
+// also when a frame of it arrives in two pieces and another channel of the same process
+// reads a whole frame in between. The cut runs over every offset of the first 12 bytes.
+func twoChannelsC03(w *mon.W, g *gen.G, no int) {
+	M := []int{256, 4096}[no%2]
+	g.MaxStr, g.MaxData, g.MaxList = 40, 200, 6
+	fa, fra := fitting(g, 12, M)
+	fb, frb := fitting(g, 8, M)
+	for len(frb) == len(fra) {
+		fb, frb = fitting(g, 8, M)
+	}
+	for cut := 1; cut < 12 && cut < len(fra); cut++ {
+		w.Case("C03 two channels #%d: frame A (%d bytes) cut at %d, frame B (%d bytes) read in between", no, len(fra), cut, len(frb))
+		w.Eval()
+		w.Count("two_channel_interleavings", 1)
+		ca, sa := wire.BPipe(1 << 16)
+		cb, sb := wire.BPipe(1 << 16)
+		chA, chB := p9p.NewChannel(sa, M), p9p.NewChannel(sb, M)
+		var ra outcome
+		done := make(chan struct{})
+		go func() { ra = readOne(chA); close(done) }()
+		ca.Write(fra[:cut])
+		if !settle() {
+			w.Inconclusive("watchdog")
+			ca.Close()
+			cb.Close()
+			return
+		}
+		cb.Write(frb)
+		rb := readOne(chB)
+		ca.Write(fra[cut:])
+		if q := mon.AwaitQuiesce(done); !q.Done {
+			if q.Hung {
+				w.Violate("mismatch", "C03:two-channels:read-never-returns", fmt.Sprintf("channel A's frame arrived completely (cut at byte %d, another channel read a frame in between) but its read does not return", cut), nil)
+			}
+			ca.Close()
+			cb.Close()
+			return
+		}
+		if rb.kind != "msg" || !refcodec.EqFcall(rb.msg, clampTread(fb, M)) {
+			w.Violate("mismatch", "C03:two-channels", fmt.Sprintf("channel B delivered [%s], want %s", rb, refcodec.Describe(fb)), nil)
+		}
+		if ra.kind != "msg" || !refcodec.EqFcall(ra.msg, clampTread(fa, M)) {
+			w.Violate("mismatch", "C03:two-channels", fmt.Sprintf("channel A's frame arrived in two pieces (cut at byte %d) while channel B read a %d-byte frame in between: A delivered [%s], want %s", cut, len(frb), ra, refcodec.Describe(fa)), nil)
+		}
+		ca.Close()
+		cb.Close()
+		w.NT(fmt.Sprintf("two/%d/%d/%d", no, cut, len(frb)))
+	}
+}
+
 func runC03(w *mon.W) {
 	total := w.Scale(9000, 1500000)
 	g := gen.Small(w.Rng)
+	for i := 0; i < w.Scale(40, 4000); i++ {
+		if w.Mine(i) {
+			twoChannelsC03(w, gen.Small(w.Rng), i)
+		}
+	}
 	msizes := []int{32, 64, 256, 4096, 65536}
 	for i := 0; i < total; i++ {
 		if !w.Mine(i) {
